@@ -442,7 +442,7 @@ impl Model {
             if v.is_link && !o.follow {
                 continue; // a symlink itself is never altered
             }
-            if v.is_link && (!self.link_fresh(v.via.as_ref().unwrap()) || matches!(o.sel, ChmodSel::Sym(_))) {
+            if v.is_link && (!self.link_fresh(v.via.as_ref().unwrap()) || matches!(o.sel, ChmodSel::Sym(_) | ChmodSel::Mix { .. })) {
                 // symbolic expression through a followed link: which mode it starts from is not documented
                 return vec![unspec()];
             }
@@ -461,6 +461,15 @@ impl Model {
                 ChmodSel::Dirs(x) if k == Kind::Dir => Some(node.type_bits() | (x & 0o7777)),
                 ChmodSel::Files(x) if k == Kind::File => Some(node.type_bits() | (x & 0o7777)),
                 ChmodSel::Sym(s) => match chmod_sym(cur, k, s) {
+                    Ok(x) => Some(x),
+                    Err(0) => return vec![same(Pat::AnyErr)],
+                    Err(_) => return vec![Alt { out: Pat::AnyErr, post: None, unspec: true }],
+                },
+                // every option given to the builder counts: the octal mode for the kinds that got one ("octal mode
+                // takes priority if given"), the symbolic expression for the rest - in whatever order they were set
+                ChmodSel::Mix { dirs, .. } if k == Kind::Dir && *dirs != 0 => Some(node.type_bits() | (dirs & 0o7777)),
+                ChmodSel::Mix { files, .. } if k == Kind::File && *files != 0 => Some(node.type_bits() | (files & 0o7777)),
+                ChmodSel::Mix { sym, .. } if !sym.is_empty() => match chmod_sym(cur, k, sym) {
                     Ok(x) => Some(x),
                     Err(0) => return vec![same(Pat::AnyErr)],
                     Err(_) => return vec![Alt { out: Pat::AnyErr, post: None, unspec: true }],
